@@ -226,6 +226,8 @@ def gen_op_fields(r, o, op, mode, maxn, types):
         op["s"] = gen_slice(r, maxn)
     elif o in ("mask", "setm_s", "setm_a", "ifelse_s", "ifelse_a"):
         op["m"] = [r.choice([0, 1, 1, 0, 2, -1]) for _ in range(maxn)]
+        if o == "mask":
+            op["live"] = r.chance(0.35)
         op["dlen"] = r.weighted([(9, 0), (1, r.choice([-1, 1, 2]))]) if mode == "faults" else 0
         if o == "setm_a":
             op["form"] = r.weighted([(4, "full"), (4, "packed"), (2, "bad")]) if mode == "faults" else r.weighted([(4, "full"), (4, "packed")])
@@ -586,7 +588,16 @@ class Sim(FAM.FamilyMixin):
         self.ctx("getitem-mask", h)
         n = len(h.idx)
         bits = self.mask_bits(op, n, h)
-        got = self.call(h.real.__getitem__, self.make_mask(bits))
+        maskobj = None
+        if op.get("live"):
+            # the mask is a live IntArray handle (possibly itself a view); the masked reference copies the selection,
+            # so later writes to that IntArray must not change what the reference selects
+            mh = self.pick(op["h"] // 7, lambda x: x.kind == "arr" and x.tname == "IntArray" and x is not h and len(x.idx) == n and x.store is not h.store)
+            if mh:
+                bits = [int(v[0]) for v in mh.values()]
+                maskobj = mh.real
+                self.inc("probe.mask_from_live_intarray")
+        got = self.call(h.real.__getitem__, maskobj if maskobj is not None else self.make_mask(bits))
         if len(bits) != n:
             self.inc("fault.bad_length")
         bad = h.masked or len(bits) != n
@@ -831,7 +842,7 @@ class Sim(FAM.FamilyMixin):
             self.inc("fault.make_readonly_midstream")
 
     def op_comp(self, op):
-        h = self.pick(op["h"], lambda x: x.kind == "arr" and x.comp is None and x.tname in COMPS)
+        h = self.pick(op["h"], lambda x: x.kind == "arr" and x.tname in COMPS)
         if not h:
             return False
         self.ctx("component-view", h)
@@ -839,6 +850,10 @@ class Sim(FAM.FamilyMixin):
         name, vt, ci = props[op["c"] % len(props)]
         got = self.call(getattr, h.real, name)
         self.expect(got, False, "a.%s" % name)
+        if h.comp is not None:
+            # a component of a component view (boxes.min.x): compose the selections
+            ci = [h.comp[c] for c in ci]
+            self.inc("probe.component_of_component_view")
         nh = Handle(got[1], "arr", vt, h.store, h.idx, h.writable, h.masked, ci)
         nh.ulen, nh.upos = h.ulen, h.upos
         if h.masked:
